@@ -78,7 +78,10 @@ pub fn topic_name(rng: &mut Rng, b: &mut Budget) -> TopicName {
 }
 pub fn topic_filter(rng: &mut Rng, b: &mut Budget) -> TopicFilter {
     let mut s = String::new();
-    if rng.chance(1, 4) {
+    if rng.chance(1, 12) {
+        // look-alikes of the shared-subscription prefix: ordinary (non-shared) filters
+        s.push_str(*rng.pick(&["$sharex/", "$shared/", "$share你/", "$SHARE/", "$shar/", "$share", "$sharé/g/"]));
+    } else if rng.chance(1, 4) {
         s.push_str("$share/");
         let gl = rng.range(1, 5) as usize;
         let g = text_of_len(rng, gl, &["g", "é", "你", "x", "-"]);
